@@ -134,7 +134,9 @@ EmAdd(e, h, conf, exp) ==
 Est(h) == cnt[h] + (IF door[h] THEN 1 ELSE 0)  \* tinyLFU.Estimate
 
 Room == Len(buf) < BufCap
-CanCall == ops < MaxOps /\ ~closed
+\* Close is never concurrent with another call (outside the properties' quantifiers)
+Closing == \E d \in Clients : pc[d] # "idle" /\ creg[d].t = "close"
+CanCall == ops < MaxOps /\ ~closed /\ ~Closing
 InClear == \E d \in Clients : pc[d] \in {"clr_stop", "clr_drain", "clr_policy", "clr_store", "clr_fin", "cls_stop"}
 Lookup(k) == LET e == store[HashOf[k]] IN
              IF e # NULL /\ ConfOK(ConfOf[k], e.conf) /\ ~Expired(e, now) THEN e.val ELSE 0
@@ -271,7 +273,7 @@ Get(c, k) ==                      \* getBuf.Push (frequency), store.get, hit/mis
                  accepted, refused, valKey, delOblig, waitCover, mustMiss, clearOwed, dropped, raised>>
 
 GetTTL(c, k) ==                   \* store.Get, store.Expiration, clock (no hook between the reads:
-  /\ pc[c] = "idle" /\ ops < MaxOps /\ "gettl" \in Ops     \* one step at the grain of the gates)
+  /\ pc[c] = "idle" /\ ops < MaxOps /\ ~Closing /\ "gettl" \in Ops  \* one step at the grain of the gates)
   /\ ops' = ops + 1
   /\ UNCHANGED <<store, em, lastCleaned, pol, used, maxCost, door, cnt, buf, sendq, apc, areg, sweepQ, 
                  sweepNow, pc, creg, now, tickPending, running, stopq, closed, met, nextVal, exitCnt, 
@@ -287,7 +289,7 @@ Iter(c) ==                        \* IterValues (read only; one step in the mode
                  gets, dropped, clrOverlap, raised, bad>>
 
 SetMaxCost(c, m) ==
-  /\ pc[c] = "idle" /\ ops < MaxOps /\ "maxcost" \in Ops
+  /\ pc[c] = "idle" /\ ops < MaxOps /\ ~Closing /\ "maxcost" \in Ops
   /\ ops' = ops + 1 /\ maxCost' = m
   /\ raised' = (raised \/ m < maxCost)
   /\ UNCHANGED <<store, em, lastCleaned, pol, used, door, cnt, buf, sendq, apc, areg, sweepQ, sweepNow, 
@@ -445,7 +447,8 @@ SweepGrab ==       \* under the em lock: take whole buckets, advance the frontie
          grabbed == {p \in em : p[1] > lastCleaned /\ p[1] <= cur} IN
      /\ em' = em \ grabbed
      /\ lastCleaned' = cur
-     /\ sweepQ' = {<<p[2], p[3]>> : p \in grabbed}
+     /\ sweepQ' = grabbed      \* <<bucket, hash, conflict>>: buckets are visited in ascending order, the keys of a
+                            \* bucket in map order (any order); a key filed in two grabbed buckets is visited twice
      /\ sweepNow' = now
      /\ apc' = IF grabbed = {} THEN "idle" ELSE "sweep_check"
   /\ UNCHANGED <<store, pol, used, maxCost, door, cnt, buf, sendq, areg, pc, creg, now, running, stopq, 
@@ -454,23 +457,23 @@ SweepGrab ==       \* under the em lock: take whole buckets, advance the frontie
 
 SweepCheck(x) ==   \* code as it was: store.Expiration under RLock, `expr.After(now)` => skip.
                    \* FixAtomic (repair of F4): store.DelExpired - check and delete under one shard lock
-  /\ apc = "sweep_check" /\ x \in sweepQ
+  /\ apc = "sweep_check" /\ x \in sweepQ /\ \A y \in sweepQ : x[1] <= y[1]
   /\ sweepQ' = sweepQ \ {x}
-  /\ LET e == store[x[1]]
+  /\ LET e == store[x[2]]
          next == IF sweepQ \ {x} = {} THEN "idle" ELSE "sweep_check" IN
      IF FixAtomic
-       THEN IF e # NULL /\ ConfOK(x[2], e.conf) /\ e.exp # 0 /\ e.exp <= sweepNow
-              THEN /\ store' = [store EXCEPT ![x[1]] = NULL]
-                   /\ em' = EmDel(em, x[1], e.exp)
+       THEN IF e # NULL /\ ConfOK(x[3], e.conf) /\ e.exp # 0 /\ e.exp <= sweepNow
+              THEN /\ store' = [store EXCEPT ![x[2]] = NULL]
+                   /\ em' = EmDel(em, x[2], e.exp)
                    /\ apc' = "sweep_poldel"
-                   /\ areg' = [item |-> [NoItem EXCEPT !.t = "sweep", !.h = x[1], !.conf = x[2], !.exp = e.exp, !.val = e.val],
+                   /\ areg' = [item |-> [NoItem EXCEPT !.t = "sweep", !.h = x[2], !.conf = x[3], !.exp = e.exp, !.val = e.val],
                                victims |-> <<>>]
               ELSE apc' = next /\ UNCHANGED <<areg, store, em>>
        ELSE /\ UNCHANGED <<store, em>>
             /\ IF e.exp > sweepNow \/ (FixZero /\ e.exp = 0)
                  THEN apc' = next /\ UNCHANGED areg
                  ELSE /\ apc' = "sweep_poldel"
-                      /\ areg' = [item |-> [NoItem EXCEPT !.t = "sweep", !.h = x[1], !.conf = x[2], !.exp = e.exp],
+                      /\ areg' = [item |-> [NoItem EXCEPT !.t = "sweep", !.h = x[2], !.conf = x[3], !.exp = e.exp],
                                   victims |-> <<>>]
   /\ UNCHANGED <<lastCleaned, pol, used, maxCost, door, cnt, buf, sendq, sweepNow, pc, creg, now, 
                  tickPending, running, stopq, closed, met, nextVal, ops, exitCnt, evictCnt, rejectCnt, 
@@ -559,10 +562,11 @@ ClearDrain(c) ==        \* the drain loop: markers closed, non-update items pass
                     ELSE IF pc[d] = "blocked" THEN "idle"        \* a blocked Del: sent, drained, returns
                     ELSE pc[d]]
         /\ delOblig' = delOblig \cup {creg[sendq[i]].k : i \in dels}
-        /\ mustMiss' = mustMiss \cup UNION {waitCover[w] \cap delOblig : w \in waiters}
+        \* a marker closed by Clear's drain carries no visibility guarantee: the writes before it were
+        \* discarded, not applied, and the map is wiped only later in the same Clear
   /\ UNCHANGED <<store, em, lastCleaned, pol, used, maxCost, door, cnt, apc, areg, sweepQ, sweepNow, creg, 
                  now, tickPending, running, stopq, closed, met, nextVal, ops, rejectCnt, accepted, 
-                 refused, valKey, waitCover, clearOwed, gets, dropped, clrOverlap, raised, bad>>
+                 refused, valKey, waitCover, mustMiss, clearOwed, gets, dropped, clrOverlap, raised, bad>>
 
 ClearPolicy(c) ==       \* policy.Clear under the policy lock
   /\ pc[c] = "clr_policy"
@@ -628,7 +632,7 @@ Next ==
   \/ \E c \in Clients, k \in Keys : DelBegin(c, k) \/ Get(c, k) \/ GetTTL(c, k)
   \/ \E c \in Clients, m \in MaxCosts : SetMaxCost(c, m)
   \/ AppDequeue \/ AppStoreSet \/ AppReject \/ AppVictim \/ AppDelStore
-  \/ SweepGrab \/ (\E x \in Hashes \X ({0} \cup {ConfOf[k] : k \in Keys}) : SweepCheck(x)) \/ SweepPolDel \/ SweepStoreDel
+  \/ SweepGrab \/ (\E x \in (0..(MaxTime + 10)) \X Hashes \X ({0} \cup {ConfOf[k] : k \in Keys}) : SweepCheck(x)) \/ SweepPolDel \/ SweepStoreDel
   \/ Tick
   \/ \E c \in Clients, kind \in {"clear", "close"} : ClearCall(c, kind)
   \/ \E c \in Clients : ClearStop(c) \/ ClearDrain(c) \/ ClearPolicy(c) \/ ClearStore(c)
@@ -636,6 +640,24 @@ Next ==
   \/ \E c \in Clients, op \in Ops : ClosedOp(c, op)
 
 Spec == Init /\ [][Next]_vars
+
+\* steps that continue a call in progress or belong to the background goroutines (everything except
+\* the start of a client call and the clock)
+Progress ==
+  \/ \E c \in Clients : SetSend(c) \/ DelSend(c)
+  \/ AppDequeue \/ AppStoreSet \/ AppReject \/ AppVictim \/ AppDelStore
+  \/ SweepGrab \/ (\E x \in (0..(MaxTime + 10)) \X Hashes \X ({0} \cup {ConfOf[k] : k \in Keys}) : SweepCheck(x))
+  \/ SweepPolDel \/ SweepStoreDel
+  \/ \E c \in Clients : ClearStop(c) \/ ClearDrain(c) \/ ClearPolicy(c) \/ ClearStore(c)
+                        \/ ClearRestart(c) \/ CloseFinish(c)
+
+\* C08 (no deadlock): whenever some call has not returned, some step other than a new call is possible
+AllReturned == \A c \in Clients : pc[c] = "idle"
+C08_NoHang == AllReturned \/ ENABLED Progress
+\* C08 (every call returns): under weak fairness of the background/continuation steps (Go's select
+\* picks a ready arm at random, so the stop arm is taken eventually: strong fairness of ClearStop)
+FairSpec == Spec /\ WF_vars(Progress) /\ \A c \in Clients : SF_vars(ClearStop(c) \/ CloseFinish(c))
+C08_CallsReturn == \A c \in Clients : (pc[c] # "idle") ~> (pc[c] = "idle")
 
 (* ------------------------------------------------------------------------------------------ *)
 (* properties                                                                                   *)
